@@ -69,6 +69,16 @@ const e4Section = `// ---------------- E4 over E2 ----------------
 //@ modifies z
 //@ end
 
+// E4.Div: z·y = x·(N(y)·inv(N(y))), i.e. z = x/y whenever the norm of y is invertible (z = 0 when y = 0).
+// Proved from the contracts of Inverse, Mul and Set (their bodies are not re-executed).
+//@ func E4.Div
+//@ layer ring E2
+//@ option distribute
+//@ ensures[quotient] qmul(NR_E2, vec(z), old(vec(y))) == vscale(qnorm(NR_E2, old(vec(y))) * inv(qnorm(NR_E2, old(vec(y)))), old(vec(x)))
+//@ ensures[result] result == z
+//@ modifies z
+//@ end
+
 //@ func E4.Inverse
 //@ layer ring E2
 //@ option distribute
